@@ -548,6 +548,7 @@ def miri_pass(cid, seeds, args, rundir, merged, notes, inconclusive, api):
         procs.append((s, out, _subprocess.Popen(cmd, cwd=api["HARNESS"], env=e, stdout=_subprocess.PIPE, stderr=_subprocess.STDOUT, text=True)))
     done = 0
     calls = 0
+    evals = 0
     for s, out, p in procs:
         try:
             text, _ = p.communicate(timeout=3000)
@@ -568,6 +569,7 @@ def miri_pass(cid, seeds, args, rundir, merged, notes, inconclusive, api):
         j = _json.load(open(out))
         done += 1
         calls += j["counters"].get("calls", 0)
+        evals += j.get("evaluations", 0)
         for v in j["violations"]:
             v["replay"]["under"] = "miri"
             merged["violations"].append(v)
@@ -575,7 +577,8 @@ def miri_pass(cid, seeds, args, rundir, merged, notes, inconclusive, api):
             merged["violation_counts"][k] = merged["violation_counts"].get(k, 0) + c
     merged["counters"]["miri:seeds-completed"] = done
     merged["counters"]["miri:calls"] = calls
-    notes.append(f"Miri: {done}/{len(seeds)} seeds completed, {calls} calls interpreted, arguments {list(args)}")
+    merged["counters"]["miri:evaluations"] = evals
+    notes.append(f"Miri: {done}/{len(seeds)} seeds completed, {evals} cases ({calls} concurrent calls) interpreted, arguments {list(args)}")
     if not _os.environ.get("VERIF_KEEP_SANITIZER_BUILDS"):
         _shutil.rmtree(tdir, ignore_errors=True)
 
